@@ -103,23 +103,55 @@ fn cfgs() -> Vec<(&'static str, bool, u32, u32)> {
     v
 }
 
-fn with_yuv<R>(ts: u32, codes: &[[u32; 3]], cfg: YuvConfig, f8: impl FnOnce(&Yuv<u8>) -> R, f16: impl FnOnce(&Yuv<u16>) -> R) -> R {
-    if ts == 1 { f8(&yuv444::<u8>(codes, cfg)) } else { f16(&yuv444::<u16>(codes, cfg)) }
+/// width of the multi-row layout used for every other chunk (not a multiple of any plane alignment, so stride != width)
+pub const LAYW: usize = 97;
+/// the same codes as a LAYW-wide multi-row 4:4:4 frame whose three planes have different paddings (hence different strides
+/// and origins); the tail of the last row is filled with mid-grey
+pub fn yuv444_rows<T: Pixel>(codes: &[[u32; 3]], cfg: YuvConfig) -> Yuv<T> {
+    let w = LAYW; let h = (codes.len() + w - 1) / w; let mid = 1u32 << (cfg.bit_depth - 1);
+    let pads = [(0usize, 0usize), (16, 3), (40, 1)];
+    let mk = |pi: usize| { let mut p: Plane<T> = Plane::new(w, h, 0, 0, pads[pi].0, pads[pi].1);
+        for s in p.data.iter_mut() { *s = T::cast_from(77u16); }
+        let stride = p.cfg.stride; let o = p.data_origin_mut();
+        for i in 0..w * h { let c = if i < codes.len() { codes[i][pi] } else { mid }; o[(i / w) * stride + i % w] = T::cast_from(c as u16); } p };
+    Yuv::new(Frame { planes: [mk(0), mk(1), mk(2)] }, cfg).unwrap()
+}
+pub fn codes_of_rows<T: Pixel>(y: &Yuv<T>, n: usize) -> Vec<[u32; 3]> {
+    let w = y.width();
+    (0..n).map(|i| { let g = |pi: usize| { let p = &y.data()[pi]; u16::cast_from(p.data_origin()[(i / w) * p.cfg.stride + i % w]) as u32 }; [g(0), g(1), g(2)] }).collect()
 }
 
+fn with_yuv<R>(ts: u32, rows: bool, codes: &[[u32; 3]], cfg: YuvConfig, f8: impl FnOnce(&Yuv<u8>) -> R, f16: impl FnOnce(&Yuv<u16>) -> R) -> R {
+    if rows { if ts == 1 { f8(&yuv444_rows::<u8>(codes, cfg)) } else { f16(&yuv444_rows::<u16>(codes, cfg)) } }
+    else if ts == 1 { f8(&yuv444::<u8>(codes, cfg)) } else { f16(&yuv444::<u16>(codes, cfg)) }
+}
+
+/// the matrices whose coefficients the crate derives from the colour primaries, with the primaries they accept
+pub const DERIVED5: [&str; 5] = ["Identity", "BT2020ConstantLuminance", "ChromaticityDerivedConstantLuminance", "ST2085", "ICtCp"];
+pub const DERIVED_PRIMS: [&str; 10] = ["BT709", "BT470M", "BT470BG", "ST170M", "ST240M", "Film", "BT2020", "P3DCI", "P3Display", "Tech3213"];
+
 pub fn c01_c08_c16(prop: &str, seed: u64, budget: usize) -> Report {
-    let parts: Vec<Report> = cfgs().par_iter().enumerate().map(|(ci, &(m, full, bd, ts))| {
+    let mut all: Vec<(&'static str, bool, u32, u32, Option<&'static str>)> = cfgs().into_iter().map(|(m, f, b, t)| (m, f, b, t, None)).collect();
+    // C16 speaks of EVERY matrix: add the five whose coefficients come from the primaries, under each primaries set they accept
+    if prop == "C16" { for m in DERIVED5 { for p in DERIVED_PRIMS { for full in [false, true] { for bd in [8u32, 10, 12, 16] { all.push((m, full, bd, 2, Some(p))); } } } } }
+    let parts: Vec<Report> = all.par_iter().enumerate().map(|(ci, &(m, full, bd, ts, fixed_p))| {
         let mut rep = Report::new();
         let mut r = Rng::new(seed ^ (ci as u64 * 7919));
         // the property quantifies over the matrix, range and depth only: primaries/transfer tags are arbitrary
-        let pn = CPS[r.below(14) as usize]; let tn = TCS[r.below(19) as usize];
+        let mut pn = CPS[r.below(14) as usize]; let tn = TCS[r.below(19) as usize];
+        if let Some(p) = fixed_p { pn = *CPS.iter().find(|x| x.0 == p).unwrap(); }
         let cfg = cfg_of(bd as u8, 0, 0, full, mc_of(m).unwrap(), tn.1, pn.1);
         let max = (1u32 << bd) - 1;
         let codes: Vec<[u32; 3]> = if prop == "C16" { let mid = 1u32 << (bd - 1); (0..=max).map(|y| [y, mid, mid]).collect() }
             else if bd == 8 && budget >= 1 << 24 { (0..(1u32 << 24)).map(|i| [i & 255, (i >> 8) & 255, i >> 16]).collect() }
             else { sample_codes(&mut r, bd, budget) };
-        for chunk in codes.chunks(1 << 16) {
-            let rgb: Vec<[f32; 3]> = with_yuv(ts, chunk, cfg, |y| Rgb::try_from(y).unwrap().into_data(), |y| Rgb::try_from(y).unwrap().into_data());
+        for (chi, chunk) in codes.chunks(1 << 16).enumerate() {
+            // every other chunk is laid out as a multi-row frame with per-plane paddings (the properties are per pixel, so the
+            // layout must not matter)
+            let rows = chi % 2 == 1 || codes.len() <= 1 << 16 && ci % 2 == 1;
+            let mut rgb: Vec<[f32; 3]> = with_yuv(ts, rows, chunk, cfg, |y| Rgb::try_from(y).unwrap().into_data(), |y| Rgb::try_from(y).unwrap().into_data());
+            let (rw, rh) = if rows { (LAYW, rgb.len() / LAYW) } else { (chunk.len(), 1) };
+            let rgb_full = rgb.clone(); rgb.truncate(chunk.len());
             rep.evaluated += chunk.len() as u64;
             if prop == "C01" {
                 for (c, o) in chunk.iter().zip(rgb.iter()) {
@@ -128,8 +160,8 @@ pub fn c01_c08_c16(prop: &str, seed: u64, budget: usize) -> Report {
                         if !(d <= 3e-6) { rep.fail("decoded component differs from H.273", format!("dec {} {} {} {} {} {} {} {}", ts, m, pn.0, full as u8, bd, c[0], c[1], c[2]), format!("{:?}", o), format!("{:?}", e)); } }
                 }
             } else if prop == "C08" {
-                let rgbimg = Rgb::new(rgb, chunk.len(), 1, TransferCharacteristic::BT1886, pn.1).unwrap();
-                let back: Vec<[u32; 3]> = if ts == 1 { codes_of(&Yuv::<u8>::try_from((&rgbimg, cfg)).unwrap()) } else { codes_of(&Yuv::<u16>::try_from((&rgbimg, cfg)).unwrap()) };
+                let rgbimg = Rgb::new(rgb_full, rw, rh, TransferCharacteristic::BT1886, pn.1).unwrap();
+                let back: Vec<[u32; 3]> = if ts == 1 { codes_of_rows(&Yuv::<u8>::try_from((&rgbimg, cfg)).unwrap(), chunk.len()) } else { codes_of_rows(&Yuv::<u16>::try_from((&rgbimg, cfg)).unwrap(), chunk.len()) };
                 let k = 1u32 << (bd - 8);
                 for (c, b) in chunk.iter().zip(back.iter()) {
                     let exp = if full { *c } else { [c[0].clamp(16 * k, 235 * k), c[1].clamp(16 * k, 240 * k), c[2].clamp(16 * k, 240 * k)] };
